@@ -755,7 +755,15 @@ pub fn gen_spec(rng: &mut Prng, o: GenOpts) -> Spec {
     let n_fixed = rng.range(1, 3) as usize;
     let fixed_equality: Vec<bool> = (0..n_fixed).map(|_| rng.chance(1, 2)).collect();
     let n_instance = rng.below(4) as usize;
-    let challenges: Vec<u8> = (0..phases.saturating_sub(1)).collect();
+    // one challenge per phase boundary, sometimes more, allocated in a
+    // PRNG-chosen order (allocation order need not follow phase order)
+    let mut challenges: Vec<u8> = (0..phases.saturating_sub(1)).collect();
+    if phases > 1 {
+        for _ in 0..rng.below(3) {
+            challenges.push(rng.below(phases as u64 - 1) as u8);
+        }
+        rng.shuffle(&mut challenges);
+    }
 
     let mut spec = Spec {
         k,
